@@ -16,7 +16,9 @@ UnOps == <<"+", "-", "signum", "abs", "sin", "cos", "tan", "asin", "acos", "atan
 F(q) == FExact(q) @@ [name |-> ""]
 FN(cl, s, nm) == FClass(cl, s) @@ [name |-> nm]
 Floats == {FN("nan", 0, "nan"), FN("pinf", 1, "pinf"), FN("ninf", -1, "ninf"), F(0), [F(0) EXCEPT !.s = -1, !.name = "nzero"],
-           F(2), F(4), F(-4), F(8), F(10), F(1), F(-15), F(28), FN("fin", 1, "huge"), FN("fin", -1, "nhuge"), FN("fin", 1, "third")}
+           F(2), F(4), F(-4), F(8), F(10), F(1), F(-15), F(28), FN("fin", 1, "huge"), FN("fin", -1, "nhuge"), FN("fin", 1, "third"),
+           \* just outside / on the edge of the integer range of the width: MAX+1, MAX+1.5, MIN-1 (no integer), MIN-0.5 (truncates to MIN)
+           FN("fin", 1, "maxp1"), FN("fin", 1, "maxp1h"), FN("fin", -1, "minm1"), FN("fin", -1, "minmh")}
 Arrays == {[k |-> "array", v |-> <<>>], [k |-> "array", v |-> <<F(4)>>], [k |-> "array", v |-> <<F(4), F(8), F(12)>>],
            [k |-> "array", v |-> <<F(0), F(4), F(0)>>],
            [k |-> "array", v |-> <<F(2), F(-4), F(8), F(0), F(16)>>], [k |-> "array", v |-> <<FN("nan", 0, "nan"), F(4), F(0)>>]}
